@@ -3,7 +3,6 @@
    4 raw (wf-free) membership characterisations - 5 kinds / nodup / total / self / ignore_device /
    swap - 6 the theorems under [wf]. *)
 Require Import WD.Base.Prelude WD.Model.Snapshot.
-From Hammer Require Import Tactics.
 
 (* ------------------------------------------------------------------------------------------ *)
 (** * 1. Generic lemmas *)
@@ -911,4 +910,282 @@ Proof.
       !moves_fwd_in, !moves_bwd_in, T1, T2. tauto.
   - unfold moved_of. rewrite !(dedup_in ppeqb ppeqb_eq), !in_app_iff,
       !moves_fwd_in, !moves_bwd_in, T1, T2. tauto.
+Qed.
+
+(* ------------------------------------------------------------------------------------------ *)
+(** * 6. Theorems for well-formed snapshots, [ignore_device = False] *)
+
+Section WFDiff.
+  Variables r s : snap.
+  Hypothesis Hr : wf r.
+  Hypothesis Hs : wf s.
+  Variables (ch : list path) (t1 t2 : list (path * option path)) (mod1 : list path)
+            (mod2 : list (path * path)).
+  Hypothesis Ech : filterM (ch_f false r s) (common r s) = Some ch.
+  Hypothesis Et1 : mapM (tag_f r s) (deleted1 r s ch) = Some t1.
+  Hypothesis Et2 : mapM (tag_f s r) (created1 r s ch) = Some t2.
+  Hypothesis Emod1 : filterM (mod1_f false r s) (common r s) = Some mod1.
+  Hypothesis Emod2 : filterM (mod2_f r s) (moved_of t1 t2) = Some mod2.
+
+  Lemma ch_wf p : In p ch <-> exists i j, inode_at r p = Some i /\ inode_at s p = Some j /\ i <> j.
+  Proof.
+    rewrite (ch_in _ _ _ _ Ech). split.
+    - intros [x [y [H1 [H2 H3]]]]. exists (inode_of x), (inode_of y).
+      repeat split; [apply inode_at_some; eauto | apply inode_at_some; eauto|].
+      intros E. apply H3. now apply gkey_false_eq.
+    - intros [i [j [H1 [H2 H3]]]]. apply inode_at_some in H1 as [x [H1 <-]].
+      apply inode_at_some in H2 as [y [H2 <-]]. exists x, y. repeat split; auto.
+      intros E. apply H3. now apply gkey_false_eq.
+  Qed.
+
+  (* a path of r whose inode is found in s under the path b: in deleted1 iff b is another path *)
+  Lemma deleted1_wf a b i :
+    inode_at r a = Some i -> inode_at s b = Some i -> (In a (deleted1 r s ch) <-> a <> b).
+  Proof.
+    intros Ha Hb. rewrite deleted1_in, ch_wf. split.
+    - intros [[_ H]|[i' [j [H1 [H2 H3]]]]] E; subst b.
+      + apply H. apply in_paths_inode. eauto.
+      + congruence.
+    - intros Hne. destruct (in_dec_eqb beqb beqb_eq a (paths s)) as [Hin|Hin].
+      + right. apply in_paths_inode in Hin as [j Hj]. exists i, j. repeat split; auto.
+        intros E. subst j. apply Hne. eapply (wf_inj s Hs); eauto.
+      + left. split; [|exact Hin]. apply in_paths_inode. eauto.
+  Qed.
+
+  Lemma created1_wf a b i :
+    inode_at r a = Some i -> inode_at s b = Some i -> (In b (created1 r s ch) <-> a <> b).
+  Proof.
+    intros Ha Hb. rewrite created1_in, ch_wf. split.
+    - intros [[_ H]|[i' [j [H1 [H2 H3]]]]] E; subst b.
+      + apply H. apply in_paths_inode. eauto.
+      + congruence.
+    - intros Hne. destruct (in_dec_eqb beqb beqb_eq b (paths r)) as [Hin|Hin].
+      + right. apply in_paths_inode in Hin as [j Hj]. exists j, i. repeat split; auto.
+        intros E. subst j. apply Hne. eapply (wf_inj r Hr); eauto.
+      + left. split; [|exact Hin]. apply in_paths_inode. eauto.
+  Qed.
+
+  (* a path of s whose inode is unknown to r is in created1 (and symmetrically) *)
+  Lemma created1_new p i : inode_at s p = Some i -> ~ In i (inodes r) -> In p (created1 r s ch).
+  Proof.
+    intros Hp Hi. rewrite created1_in, ch_wf.
+    destruct (in_dec_eqb beqb beqb_eq p (paths r)) as [Hin|Hin].
+    - right. apply in_paths_inode in Hin as [j Hj]. exists j, i. repeat split; auto.
+      intros E. subst j. apply Hi. eapply inode_at_in_inodes; eauto.
+    - left. split; [|exact Hin]. apply in_paths_inode. eauto.
+  Qed.
+
+  Lemma deleted1_gone p i : inode_at r p = Some i -> ~ In i (inodes s) -> In p (deleted1 r s ch).
+  Proof.
+    intros Hp Hi. rewrite deleted1_in, ch_wf.
+    destruct (in_dec_eqb beqb beqb_eq p (paths s)) as [Hin|Hin].
+    - right. apply in_paths_inode in Hin as [j Hj]. exists i, j. repeat split; auto.
+      intros E. subst j. apply Hi. eapply inode_at_in_inodes; eauto.
+    - left. split; [|exact Hin]. apply in_paths_inode. eauto.
+  Qed.
+
+  Lemma moved_wf a b :
+    In (a, b) (moved_of t1 t2) <-> a <> b /\ exists i, inode_at r a = Some i /\ inode_at s b = Some i.
+  Proof.
+    rewrite (moved_raw _ _ _ _ _ Et1 Et2). split.
+    - intros [[H1 [i [H2 H3]]]|[H1 [i [H2 H3]]]].
+      + apply (wf_path_of s Hs) in H3. split; [|eauto]. now apply (deleted1_wf a b i).
+      + apply (wf_path_of r Hr) in H3. split; [|eauto]. now apply (created1_wf a b i).
+    - intros [Hne [i [H1 H2]]]. left. split; [now apply (deleted1_wf a b i)|].
+      exists i. split; [exact H1|]. now apply (wf_path_of s Hs).
+  Qed.
+
+  Lemma created_wf p : In p (stays t2) <-> exists i, inode_at s p = Some i /\ ~ In i (inodes r).
+  Proof.
+    rewrite (created_raw _ _ _ _ Et2). split.
+    - intros [_ [i [H1 H2]]]. exists i. split; [exact H1|]. now apply (wf_path_of_none r Hr).
+    - intros [i [H1 H2]]. split; [eapply created1_new; eauto|].
+      exists i. split; [exact H1|]. now apply (wf_path_of_none r Hr).
+  Qed.
+
+  Lemma deleted_wf p : In p (stays t1) <-> exists i, inode_at r p = Some i /\ ~ In i (inodes s).
+  Proof.
+    rewrite (deleted_raw _ _ _ _ Et1). split.
+    - intros [_ [i [H1 H2]]]. exists i. split; [exact H1|]. now apply (wf_path_of_none s Hs).
+    - intros [i [H1 H2]]. split; [eapply deleted1_gone; eauto|].
+      exists i. split; [exact H1|]. now apply (wf_path_of_none s Hs).
+  Qed.
+
+  Lemma modified_wf a :
+    In a (modified_of mod1 mod2) <->
+    exists b sa sb, lookup a r = Some sa /\ lookup b s = Some sb /\ inode_of sa = inode_of sb /\
+                    (st_mtime sa <> st_mtime sb \/ st_size sa <> st_size sb).
+  Proof.
+    rewrite modified_raw, (mod1_in _ _ _ _ Emod1). split.
+    - intros [[x [y [H1 [H2 [H3 H4]]]]]|[b H]].
+      + exists a, x, y. repeat split; auto; [now apply gkey_false_eq | now apply ms_differ_spec].
+      + apply (mod2_in _ _ _ _ _ Emod2) in H as [Hm [x [y [H1 [H2 H3]]]]].
+        apply moved_wf in Hm as [_ [i [Hi1 Hi2]]].
+        apply inode_at_some in Hi1 as [x' [Hx <-]]. apply inode_at_some in Hi2 as [y' [Hy E]].
+        exists b, x, y. repeat split; auto; [congruence | now apply ms_differ_spec].
+    - intros [b [sa [sb [H1 [H2 [H3 H4]]]]]]. apply ms_differ_spec in H4.
+      destruct (path_eq_dec a b) as [->|Hne].
+      + left. exists sa, sb. repeat split; auto. now apply gkey_false_eq.
+      + right. exists b. apply (mod2_in _ _ _ _ _ Emod2). split; [|eauto].
+        apply moved_wf. split; [exact Hne|]. exists (inode_of sa).
+        split; apply inode_at_some; eauto.
+  Qed.
+End WFDiff.
+
+(** ** Consequences of the four characterisations *)
+Lemma in_map_fst {A B} (a : A) (l : list (A * B)) : In a (map fst l) <-> exists b, In (a, b) l.
+Proof.
+  rewrite in_map_iff. split.
+  - intros [[x y] [H1 H2]]. simpl in H1. subst. eauto.
+  - intros [b H]. exists (a, b). auto.
+Qed.
+
+Lemma in_map_snd {A B} (b : B) (l : list (A * B)) : In b (map snd l) <-> exists a, In (a, b) l.
+Proof.
+  rewrite in_map_iff. split.
+  - intros [[x y] [H1 H2]]. simpl in H1. subst. eauto.
+  - intros [a H]. exists (a, b). auto.
+Qed.
+
+Section Abstract.
+  Variables r s : snap.
+  Hypothesis Hr : wf r.
+  Hypothesis Hs : wf s.
+  Variables (C D M : list path) (V : list (path * path)).
+  Hypothesis HC : forall p, In p C <-> exists i, inode_at s p = Some i /\ ~ In i (inodes r).
+  Hypothesis HD : forall p, In p D <-> exists i, inode_at r p = Some i /\ ~ In i (inodes s).
+  Hypothesis HV : forall a b, In (a, b) V <->
+    a <> b /\ exists i, inode_at r a = Some i /\ inode_at s b = Some i.
+  Hypothesis HM : forall a, In a M <->
+    exists b sa sb, lookup a r = Some sa /\ lookup b s = Some sb /\ inode_of sa = inode_of sb /\
+                    (st_mtime sa <> st_mtime sb \/ st_size sa <> st_size sb).
+
+  Lemma abs_account p :
+    In p (paths s) <->
+    (In p (paths r) /\ ~ In p D /\ ~ In p (map fst V)) \/ In p C \/ In p (map snd V).
+  Proof.
+    rewrite in_map_fst, in_map_snd. split.
+    - intros Hp. apply in_paths_inode in Hp as [i Hi].
+      destruct (in_dec_eqb ieqb ieqb_eq i (inodes r)) as [Hin|Hin].
+      + apply (wf_in_inodes r Hr) in Hin as [a Ha]. destruct (path_eq_dec a p) as [->|Hne].
+        * left. split; [apply in_paths_inode; eauto|]. split.
+          -- intros Hd. apply HD in Hd as [i' [H1 H2]]. apply H2.
+             assert (i' = i) by congruence. subst i'. eapply inode_at_in_inodes; eauto.
+          -- intros [b Hb]. apply HV in Hb as [Hne [i' [H1 H2]]].
+             assert (i' = i) by congruence. subst i'. apply Hne. eapply (wf_inj s Hs); eauto.
+        * right. right. exists a. apply HV. eauto.
+      + right. left. apply HC. eauto.
+    - intros [[Hp [Hd Hv]]|[Hc|[a Ha]]].
+      + apply in_paths_inode in Hp as [i Hi].
+        destruct (in_dec_eqb ieqb ieqb_eq i (inodes s)) as [Hin|Hin].
+        * apply (wf_in_inodes s Hs) in Hin as [b Hb]. destruct (path_eq_dec p b) as [->|Hne].
+          -- apply in_paths_inode. eauto.
+          -- exfalso. apply Hv. exists b. apply HV. eauto.
+        * exfalso. apply Hd. apply HD. eauto.
+      + apply HC in Hc as [i [Hi _]]. apply in_paths_inode. eauto.
+      + apply HV in Ha as [_ [i [_ Hi]]]. apply in_paths_inode. eauto.
+  Qed.
+
+  Lemma abs_disjoint :
+    (forall p, In p D -> ~ In p (map fst V)) /\
+    (forall p, In p C -> ~ In p (map snd V)) /\
+    (forall p, In p D -> ~ In p M) /\
+    (forall a b b', In (a, b) V -> In (a, b') V -> b = b') /\
+    (forall a a' b, In (a, b) V -> In (a', b) V -> a = a') /\
+    (forall a b, In (a, b) V -> a <> b) /\
+    (forall p, In p C -> In p D ->
+       In p (paths r) /\ In p (paths s) /\ inode_at r p <> inode_at s p) /\
+    (forall p, In p M -> In p C -> In p (map fst V)).
+  Proof.
+    split; [|split; [|split; [|split; [|split; [|split; [|split]]]]]].
+    - intros p Hd Hv. apply in_map_fst in Hv as [b Hb]. apply HD in Hd as [i [H1 H2]].
+      apply HV in Hb as [_ [i' [H3 H4]]]. assert (i' = i) by congruence. subst i'.
+      apply H2. eapply inode_at_in_inodes; eauto.
+    - intros p Hc Hv. apply in_map_snd in Hv as [a Ha]. apply HC in Hc as [i [H1 H2]].
+      apply HV in Ha as [_ [i' [H3 H4]]]. assert (i' = i) by congruence. subst i'.
+      apply H2. eapply inode_at_in_inodes; eauto.
+    - intros p Hd Hm. apply HD in Hd as [i [H1 H2]].
+      apply HM in Hm as [b [sa [sb [H3 [H4 [H5 _]]]]]].
+      apply inode_at_some in H1 as [x [Hx <-]]. assert (x = sa) by congruence. subst x.
+      apply H2. rewrite H5. apply (inode_at_in_inodes s b). apply inode_at_some. eauto.
+    - intros a b b' H1 H2. apply HV in H1 as [_ [i [H1 H3]]]. apply HV in H2 as [_ [i' [H2 H4]]].
+      assert (i' = i) by congruence. subst i'. eapply (wf_inj s Hs); eauto.
+    - intros a a' b H1 H2. apply HV in H1 as [_ [i [H1 H3]]]. apply HV in H2 as [_ [i' [H2 H4]]].
+      assert (i' = i) by congruence. subst i'. eapply (wf_inj r Hr); eauto.
+    - intros a b H. apply HV in H. tauto.
+    - intros p Hc Hd. apply HC in Hc as [i [H1 H2]]. apply HD in Hd as [j [H3 H4]].
+      split; [apply in_paths_inode; eauto|]. split; [apply in_paths_inode; eauto|].
+      rewrite H1, H3. intros E. inversion E; subst. apply H2. eapply inode_at_in_inodes; eauto.
+    - intros p Hm Hc. apply HM in Hm as [b [sa [sb [H3 [H4 [H5 _]]]]]].
+      apply HC in Hc as [i [H1 H2]]. apply in_map_fst. exists b. apply HV. split.
+      + intros E. subst b. apply inode_at_some in H1 as [x [Hx <-]].
+        assert (x = sb) by congruence. subst x. apply H2. rewrite <- H5.
+        apply (inode_at_in_inodes r p). apply inode_at_some. eauto.
+      + exists (inode_of sa). split; apply inode_at_some; eauto.
+  Qed.
+End Abstract.
+
+(** ** The C09 statements *)
+Ltac invert_diff H :=
+  let ch := fresh "ch" in let t1 := fresh "t1" in let t2 := fresh "t2" in
+  let mod1 := fresh "mod1" in let mod2 := fresh "mod2" in
+  let dc := fresh "dc" in let dd := fresh "dd" in let dm := fresh "dm" in let dv := fresh "dv" in
+  let St := fresh "St" in
+  destruct (diff_inv _ _ _ _ H) as [ch [t1 [t2 [mod1 [mod2 [dc [dd [dm [dv [St ->]]]]]]]]]];
+  destruct St as [E1 E2 E3 E4 E5 _ _ _ _];
+  cbn [result_of d_created d_deleted d_modified d_moved].
+
+Lemma diff_moved_iff : forall r s d, wf r -> wf s -> diff false r s = Some d ->
+  forall a b, In (a, b) (d_moved d) <->
+    a <> b /\ exists i, inode_at r a = Some i /\ inode_at s b = Some i.
+Proof.
+  intros r s d Hr Hs H. invert_diff H. exact (moved_wf r s Hr Hs _ _ _ E1 E2 E3).
+Qed.
+
+Lemma diff_created_iff : forall r s d, wf r -> wf s -> diff false r s = Some d ->
+  forall p, In p (d_created d) <-> exists i, inode_at s p = Some i /\ ~ In i (inodes r).
+Proof.
+  intros r s d Hr Hs H. invert_diff H. exact (created_wf r s Hr _ _ E1 E3).
+Qed.
+
+Lemma diff_deleted_iff : forall r s d, wf r -> wf s -> diff false r s = Some d ->
+  forall p, In p (d_deleted d) <-> exists i, inode_at r p = Some i /\ ~ In i (inodes s).
+Proof.
+  intros r s d Hr Hs H. invert_diff H. exact (deleted_wf r s Hs _ _ E1 E2).
+Qed.
+
+Lemma diff_modified_iff : forall r s d, wf r -> wf s -> diff false r s = Some d ->
+  forall a, In a (d_modified d) <->
+    exists b sa sb, lookup a r = Some sa /\ lookup b s = Some sb /\ inode_of sa = inode_of sb /\
+                    (st_mtime sa <> st_mtime sb \/ st_size sa <> st_size sb).
+Proof.
+  intros r s d Hr Hs H. invert_diff H. exact (modified_wf r s Hr Hs _ _ _ _ _ E1 E2 E3 E4 E5).
+Qed.
+
+Lemma diff_account : forall r s d, wf r -> wf s -> diff false r s = Some d ->
+  forall p, In p (paths s) <->
+    (In p (paths r) /\ ~ In p (d_deleted d) /\ ~ In p (map fst (d_moved d)))
+    \/ In p (d_created d) \/ In p (map snd (d_moved d)).
+Proof.
+  intros r s d Hr Hs H.
+  exact (abs_account r s Hr Hs _ _ _
+           (diff_created_iff r s d Hr Hs H) (diff_deleted_iff r s d Hr Hs H)
+           (diff_moved_iff r s d Hr Hs H)).
+Qed.
+
+Lemma diff_disjoint : forall r s d, wf r -> wf s -> diff false r s = Some d ->
+  (forall p, In p (d_deleted d) -> ~ In p (map fst (d_moved d))) /\
+  (forall p, In p (d_created d) -> ~ In p (map snd (d_moved d))) /\
+  (forall p, In p (d_deleted d) -> ~ In p (d_modified d)) /\
+  (forall a b b', In (a, b) (d_moved d) -> In (a, b') (d_moved d) -> b = b') /\
+  (forall a a' b, In (a, b) (d_moved d) -> In (a', b) (d_moved d) -> a = a') /\
+  (forall a b, In (a, b) (d_moved d) -> a <> b) /\
+  (forall p, In p (d_created d) -> In p (d_deleted d) ->
+     In p (paths r) /\ In p (paths s) /\ inode_at r p <> inode_at s p) /\
+  (forall p, In p (d_modified d) -> In p (d_created d) -> In p (map fst (d_moved d))).
+Proof.
+  intros r s d Hr Hs H.
+  exact (abs_disjoint r s Hr Hs _ _ _ _
+           (diff_created_iff r s d Hr Hs H) (diff_deleted_iff r s d Hr Hs H)
+           (diff_moved_iff r s d Hr Hs H) (diff_modified_iff r s d Hr Hs H)).
 Qed.
